@@ -509,7 +509,7 @@ def run(ctx):
     ctx.note("exhaustive_matrices", idx)
     # 2. random
     nmax = 150 if ctx.thorough else 60
-    cap = 90000 if ctx.thorough else 6400
+    cap = 240000 if ctx.thorough else 6400
     k = 0
     while ctx.time_left() > 0 and k < cap:
         k += 1
